@@ -262,7 +262,7 @@ class TextFileStorage(Storage[str]):
         """
 
         with self._storage_lock:
-            for i in range(len(self)):
+            for i in range(len(self._index)):  # identifiers may have gaps, so the count is not the upper bound
                 try:
                     yield self[i]
                 except IndexError:
